@@ -35,13 +35,14 @@ def dy(rng, lo=-12, hi=12, den=4):
     return float(F(rng.randint(lo, hi), den))
 
 
-def base_matrix(rng, n, pivot=True):
-    """well conditioned n x n matrix built from rational factors P L U (forces row pivoting when pivot=True)"""
+def base_matrix(rng, n, pivot=True, perm=None):
+    """well conditioned n x n matrix built from rational factors P L U (forces row pivoting when pivot=True; perm fixes the row permutation)"""
     L = numpy.eye(n) + numpy.tril(numpy.array([[rng.randint(-3, 3) / 4 for _ in range(n)] for _ in range(n)]), -1)
     U = numpy.triu(numpy.array([[rng.randint(-4, 4) / 4 for _ in range(n)] for _ in range(n)]), 1) + numpy.diag([rng.choice([-2, -1, 1, 2, 0.5, -0.5]) * 2 for _ in range(n)])
-    perm = list(range(n))
-    if pivot:
-        rng.shuffle(perm)
+    if perm is None:
+        perm = list(range(n))
+        if pivot:
+            rng.shuffle(perm)
     P = numpy.eye(n)[perm]
     return P @ L @ U
 
@@ -195,9 +196,14 @@ def main(tier, seed):
             rep.violation('outer:%s:%s' % (mix, 'equal' if n1 == n2 else 'unequal-lengths'), 'outer (%s) of lengths %d, %d: %s' % (mix, n1, n2, why), dict(kind='outer', case=meta, x=xd.tolist(), y=yd.tolist()))
 
     # ------------------------------------------------------------------ inv / solve / trace / det / logdet
-    for _ in range(N):
+    for it_ in range(N):
         n = rng.randint(1, 4); D = rng.randint(1, 5); P = rng.randint(1, 3)
         bases = [base_matrix(rng, n) for _ in range(P)]
+        if it_ % 4 == 1:
+            # scheduled, not left to chance: row permutations that are NOT their own inverse (cycles of length >= 3), a different one per direction
+            n = 3 + (it_ // 4) % 2
+            bases = [base_matrix(rng, n, perm=[(i + 1 + (p_ + it_ // 8) % (n - 1)) % n for i in range(n)]) for p_ in range(P)]
+            rep.count('scheduled', 'cyclic row permutation')
         Ad = mat_utpm(rng, D, P, n, n, base=lambda p: bases[p])
         scale = scale_of(Ad)
         A_obj = obj_mats(Ad)
@@ -224,6 +230,8 @@ def main(tier, seed):
         # ---- solve
         k = rng.randint(1, 3)
         mix = rng.choice(['UU', 'UU', 'aU', 'Ua'])
+        if it_ % 4 == 1:
+            mix = ['aU', 'UU', 'Ua'][(it_ // 4) % 3]
         Bd = mat_utpm(rng, D, P, n, k)
         note_case('solve:' + mix, dict(op='solve', mix=mix, k=k, B=Bd.tolist(), **meta), D >= 2 and n >= 2)
         try:
